@@ -208,6 +208,19 @@ def run(ctx):
     returns_call("PhystSeries", "h1", lambda c: U(c.func) == "physt.h1" and U(c.args[0]) == "self._series" and fw(c, "bins"), "physt.h1(self._series, bins=bins, **kwargs)")
     returns_call("PhystFrame", "h", lambda c: U(c.func) in ("physt.h1", "physt.h2", "physt.h") and fw(c, "bins"), "physt.h1 / h2 / h(..., bins=bins, **kwargs)")
 
+    dfh1 = m.cls("PhystDataFrameAccessor").methods["h1"]
+    polw = {}
+    for p_ in function_paths(dfh1.node):
+        for s_ in p_:
+            if s_[0] == "cond" and U(s_[1]) == "isinstance(weights, str) and weights in self._df.columns" and end_kind(p_) == "return":
+                polw.setdefault(s_[2], set()).add(any(x[0] == "stmt" and U(x[1]) == "weights = self._df[weights]" for x in p_))
+    ctx.check(polw == {True: {True}, False: {False}}, "C17.d", "PhystDataFrameAccessor.h1:weights-column", "a column name given as weights is replaced by that column",
+              f"`weights = self._df[weights]` per guard decision: {polw}", dfh1.where)
+    pfh = m.cls("PhystFrame").methods["h"]
+    tph = U(pfh.node)
+    ctx.check("if len(columns) == 2:" in tph and "return physt.h2(data[columns[0]], data[columns[1]], bins=bins, **kwargs)" in tph
+              and "if len(columns) == 1:" in tph and "return physt.h1(data, bins=bins, **kwargs)" in tph, "C17.d", "PhystFrame.h:dispatch",
+              "1 column -> h1, 2 columns -> h2(first, second), more -> h", "the polars frame accessor no longer dispatches on the number of columns in order", pfh.where)
     # the NaN policy (refuse / drop with the weights, per `dropna`) is the facade's: accessors hand the column(s) on untouched
     NA_CALLS = {"notna", "dropna", "isna", "isnull", "notnull", "fillna", "drop_nulls", "fill_null", "is_null", "is_not_null", "isnan",
                 "drop_nans", "fill_nan", "nan_to_num"}
@@ -270,6 +283,22 @@ def run(ctx):
     ctx.check(bool(okg), "C17.e", "geant4._create_h1", "first row -> underflow, last row -> overflow, rows between -> contents / errors / sums",
               "the Geant4 reader no longer maps first / last / inner rows to underflow / overflow / contents consistently", g4.where)
 
+    g2 = m.module("compat.geant4").functions["_create_h2"]
+    ctx.saw(g2)
+    t2 = U(g2.node)
+    okg2 = "bin_width=(max_ - min_) / bin_count, range=(min_, max_)" in t2 and "frequencies = data[:, 1].reshape([b + 2 for b in shape])" in t2 \
+        and "frequencies = frequencies[1:-1, 1:-1]" in t2 and "errors2 = data[:, 2].reshape([b + 2 for b in shape])" in t2 and "errors2 = errors2[1:-1, 1:-1]" in t2
+    c2 = [c for c in calls_in(g2.node) if U(c.func) == "Histogram2D" and c.keywords]
+    okg2 = okg2 and bool(c2) and all(U(kwarg(c2[-1], k_)) == k_ for k_ in ("binnings", "frequencies", "errors2"))
+    ctx.check(okg2, "C17.e", "geant4._create_h2", "per axis (max - min) / count wide bins over (min, max); column 1 -> contents, column 2 -> errors2, outer rows / columns cut off",
+              "the Geant4 2-D reader no longer maps columns 1 / 2 to contents / squared errors over the declared axes", g2.where)
+    t1 = U(g4.node)
+    ctx.check("bin_width=(max_ - min_) / bin_count, range=(min_, max_)" in t1 and any(U(kwarg(c, "stats")) == "stats" for c in calls_in(g4.node) if U(c.func) == "Histogram1D"),
+              "C17.e", "geant4._create_h1:bins-and-stats", "bins of width (max - min) / count over (min, max); the sums reach the histogram as statistics",
+              "the Geant4 1-D reader changed its bin width formula or drops the statistics", g4.where)
+    ctx.check("return Dataset(data_vars, coords, attrs)" in U(tx.node), "C17.e", "to_xarray:dataset", "Dataset(data_vars, coords, attrs)",
+              "the Dataset is no longer built as (data_vars, coords, attrs)", tx.where)
+
     # ---- C17.f dask -----------------------------------------------------------------------------------------------------------
     ctx.rule("C17.f", "each dask chunk runs the plain facade with the caller's bins and kwargs; the result sums all chunks", 3)
     dm = m.module("compat.dask")
@@ -285,6 +314,25 @@ def run(ctx):
     ctx.check(imp.get("original_h1") == ("physt._facade", "h1") and imp.get("original_hdd") == ("physt._facade", "histogramdd"), "C17.f", "dask:facades",
               "original_h1 / original_hdd are the plain facades", "the dask module no longer wraps physt's own facades", dm.relpath)
 
+    for fname in ("histogram1d", "histogramdd"):
+        f = dm.functions[fname]
+        body_ = [U(st) for st in f.node.body]
+        oka = "kwargs['adaptive'] = True" in body_ and any(isinstance(st, ast.If) and "kwargs.get('adaptive', True)" in U(st.test) and any(isinstance(b, ast.Raise) for b in st.body)
+                                                          for st in f.node.body)
+        ctx.check(oka, "C17.f", f"dask.{fname}:adaptive", "chunks are histogrammed adaptively (so that their sum exists); adaptive=False is refused",
+                  "the dask facade no longer forces adaptive chunk histograms", f.where)
+    rd = dm.functions["_run_dask"]
+    pol_ = {}
+    for p_ in function_paths(rd.node):
+        cs_ = dict((U(s_[1]), s_[2]) for s_ in p_ if s_[0] == "cond")
+        if cs_.get("compute") is True and "method" in cs_ and end_kind(p_) == "return":
+            pol_.setdefault(cs_["method"], set()).add(U(p_[-1][2].value))
+    ctx.check(pol_.get(False) == {"dask.get(graph, result_name)"} and "method(graph, result_name)" in (pol_.get(True) or set()), "C17.f", "dask._run_dask:dispatch",
+              "no method: dask.get(graph, result); a callable: method(graph, result)", f"results per `method` decision: {pol_}", rd.where)
+    h2d_ = dm.functions["histogram2d"]
+    th = U(h2d_.node)
+    ctx.check("kwargs['dim'] = 2" in th and "kwargs['axis_names'] = [data1.name, data2.name]" in th, "C17.f", "dask.histogram2d:names-and-dim",
+              "dimension 2 and the inputs' names are passed on", "dask histogram2d no longer passes dim=2 / the inputs' names", h2d_.where)
     # plain arrays given to the dask facades are wrapped with a positive chunk size; 2-D / 3-D aliases reach histogramdd
     NONCALL = {"size", "shape", "ndim", "dtype", "T", "nbytes", "itemsize", "real", "imag", "flat"}
     bad_calls = [f"{fi.qualname}: `{U(c)[:50]}`" for fi in dm.functions.values() for c in calls_in(fi.node)
